@@ -812,8 +812,9 @@ class RF24:
             self.flush_rx()
         self.clear_status_flags()
         # self._reg_write(0xE3)
-        up_cnt = 0
         self._ce_pin.value = True
+        # the status byte cached by clear_status_flags() predates the cleared flags
+        up_cnt = self.update()
         while not self._in[0] & 0x30:
             up_cnt += self.update()
         # self._ce_pin.value = False
